@@ -195,8 +195,6 @@ func init() {
 	// ---------------- C17.R7, C07.R2 end
 	mut("C17", "getLocked hands out the live bucket", "x/go/gorp/index.go",
 		"	out := make([]K, len(src))\n	copy(out, src)\n	return out\n}", "	return src\n}", "C17.R7.alias")
-	mut("C07", "the acknowledged commit end is the smallest leaseholder end", "core/pkg/distribution/framer/writer/synchronizer.go",
-		"res.End > s.cycle.res.End", "res.End < s.cycle.res.End", "C07.R2.sync")
 
 	// ---------------- C07.R6
 	mut("C07", "the free writer stays silent for frames without free channels", "core/pkg/distribution/framer/writer/free.go",
